@@ -509,6 +509,15 @@ def run(ctx, rep):
                    and oc.dominates(contains[0].bb, ins_prog[0].bb) and contains[0].bb != ins_prog[0].bb
                    and oc.dominates(removes[0].bb, ins_done[0].bb)
                    and flow.flows_to_branch(oc, ins_prog[0].dest[0]) and flow.flows_to_branch(oc, contains[0].dest[0]))
+            # a finished bound is *always* entered into the completed set: the next trip of the loop cannot be reached from the
+            # point where the bound leaves the in-progress set on a path that avoids the insertion (else the shortcut never fires
+            # and a DAG-shaped type is re-walked once per path: exponential)
+            if okk and contains[0].bb in oc.reachable(removes[0].bb, avoid=(ins_done[0].bb,)):
+                rep.violation("C04.occurs", "occurs_check:completed-conditional", "a bound that leaves the in-progress set is entered into the completed set only "
+                              "on some paths: the already-checked shortcut does not fire for the others and shared sub-types are re-walked once per "
+                              "path (exponential in the depth of a DAG-shaped type)", ins_done[0].where())
+            elif okk:
+                rep.ok("C04.occurs", "occurs_check: a finished bound is always entered into the completed set", None)
             if okk:
                 rep.ok("C04.occurs", "occurs_check: completed-test precedes in-progress marking", None)
             else:
